@@ -108,6 +108,15 @@ func runUndelegate(ctx *action.Context, tx action.RawTx) (bool, action.Response)
 		return helpers.LogAndReturnFalse(ctx.Logger, action.ErrWrongTxType, ud.Tags(), err)
 	}
 
+	// the amount must be a valid (known currency, not negative) OLT amount
+	undelegateCoin := ud.Amount.ToCoin(ctx.Currencies)
+	if !undelegateCoin.IsValid() {
+		return helpers.LogAndReturnFalse(ctx.Logger, action.ErrInvalidAmount, ud.Tags(), errors.New("Coin is not valid"))
+	}
+	if undelegateCoin.Currency.Name != "OLT" {
+		return helpers.LogAndReturnFalse(ctx.Logger, action.ErrInvalidCurrency, ud.Tags(), errors.New("currency is not OLT"))
+	}
+
 	// get coin for active delegation amount and the amount to undelegate
 	ds := ctx.NetwkDelegators.Deleg
 	ds.WithPrefix(net_delg.ActiveType)
@@ -116,7 +125,6 @@ func runUndelegate(ctx *action.Context, tx action.RawTx) (bool, action.Response)
 		return helpers.LogAndReturnFalse(ctx.Logger, net_delg.ErrGettingActiveDelgAmount, ud.Tags(), err)
 	}
 
-	undelegateCoin := ud.Amount.ToCoin(ctx.Currencies)
 	// cut the amount from active store
 	remainCoin, err := delegationCoin.Minus(undelegateCoin)
 	if err != nil {
